@@ -178,9 +178,9 @@ theorem refreshMeta_spec {w : W} (h : WInv w) (k : Path) :
       · exact h.cache k' d' hk'
 
 /-- reads never touch the backend and keep the invariant -/
-theorem readLoop_state {w : W} (hw : WInv w) (k : Path) (attempt : Backend → Doc → Attempt Out) :
-    WInv (readLoop w k attempt).1 ∧ (readLoop w k attempt).1.be = w.be ∧
-      (readLoop w k attempt).1.nextId = w.nextId ∧ (readLoop w k attempt).1.flavor = w.flavor := by
+theorem readLoop_state {w : W} (hw : WInv w) (k : Path) (attempt retry : Backend → Doc → Attempt Out) :
+    WInv (readLoop w k attempt retry).1 ∧ (readLoop w k attempt retry).1.be = w.be ∧
+      (readLoop w k attempt retry).1.nextId = w.nextId ∧ (readLoop w k attempt retry).1.flavor = w.flavor := by
   obtain ⟨w1, hg, hw1, hbe1, hn1, hf1⟩ := getMeta_spec hw k
   unfold readLoop
   rw [hg]
@@ -198,7 +198,7 @@ theorem readLoop_state {w : W} (hw : WInv w) (k : Path) (attempt : Backend → D
           | none => exact ⟨hw2, hbe2.trans hbe1, hn2.trans hn1, hf2.trans hf1⟩
           | some d2 =>
               simp only []
-              cases attempt w2.be d2 <;> exact ⟨hw2, hbe2.trans hbe1, hn2.trans hn1, hf2.trans hf1⟩
+              cases retry w2.be d2 <;> exact ⟨hw2, hbe2.trans hbe1, hn2.trans hn1, hf2.trans hf1⟩
 
 theorem applySteps_nil (now : Nat) (be : Backend) : applySteps now be [] = be := rfl
 
@@ -209,13 +209,13 @@ theorem wStep_backend {w : W} (hw : WInv w) (now : Nat) (c : Call) :
   cases c with
   | put k mode data => rfl
   | mput k parts => rfl
-  | get k o => exact (readLoop_state hw k (fun be d => getAttempt be k d o)).2.1
+  | get k o => exact (readLoop_state hw k (fun be d => getAttempt be k d o) _).2.1
   | getRanges k rs =>
       simp only [wStep, stepsOf, applySteps_nil]
       by_cases hr : rs.isEmpty
       · simp only [hr, if_true]
-      · simp only [hr]
-        exact (readLoop_state hw k (fun be d => rangesAttempt be k d rs)).2.1
+      · simp only [hr, Bool.false_eq_true, if_false]
+        exact (readLoop_state hw k (fun be d => rangesAttempt be k d rs) _).2.1
   | delete k => rfl
   | copy src dst create =>
       simp only [wStep, stepsOf, copySteps]
@@ -255,13 +255,13 @@ theorem wStep_inv {w : W} (hw : WInv w) (now : Nat) (c : Call) : WInv (wStep w n
   cases c with
   | put k mode data => exact stepOK_write hw _ (gen_put_order _) _ now k mode data
   | mput k parts => exact stepOK_write hw _ (gen_complete_order _) _ now k .overwrite _
-  | get k o => exact (readLoop_state hw k (fun be d => getAttempt be k d o)).1
+  | get k o => exact (readLoop_state hw k (fun be d => getAttempt be k d o) _).1
   | getRanges k rs =>
       simp only [wStep]
       by_cases hr : rs.isEmpty
       · simp only [hr, if_true]; exact hw
-      · simp only [hr]
-        exact (readLoop_state hw k (fun be d => rangesAttempt be k d rs)).1
+      · simp only [hr, Bool.false_eq_true, if_false]
+        exact (readLoop_state hw k (fun be d => rangesAttempt be k d rs) _).1
   | delete k => exact stepOK_delete hw now k
   | copy src dst create =>
       simp only [wStep]
